@@ -43,6 +43,8 @@ class Prog:
         """('lit', s) | ('ref', name) | ('cat', name, s) | ('inc', name)"""
         r = self.r
         k = r.random()
+        if k < 0.06:
+            return ("lit", "")          # an empty value is a value: it shadows / defines like any other
         if k < 0.5:
             return ("lit", self.token())
         if k < 0.75:
